@@ -9,8 +9,8 @@ MODELS = ["EofCase"]
 RULE = ("structured random configurations: class x shape (tall/wide/square/one feature) x spectrum (random, geometric, repeated, "
         "rank-deficient, clustered) x scale 1e-8..1e8 x flags x weights x solver x k in 1..rank; a case is non-trivial when the "
         "decomposed matrix has >= 2 rows and >= 2 distinct entries and at least one numeric field was compared; distinct by input hash")
-PARTIAL = ["optimality (C01_eckart_young_full: against every n x k times k x p product) and the order statements are proved at the real instance; "
-           "the implementation is additionally tested against random rank-k competitors",
+PARTIAL = ["optimality (Eckart-Young against every n x k times k x p product) is proved for real data (C01_eckart_young_full) and for complex data "
+           "(C01_eckart_young_full_complex, by realification over Coquelicot's complex numbers); the order statements are proved at the real instance",
            "randomised solvers are compared at their own accuracy and only under a spectral gap (test)"]
 REFUTED = []
 TRUSTED = ["SVD is an oracle: numpy.linalg.svd of the implementation's own decomposed matrix, residuals re-checked in Coq",
